@@ -215,3 +215,173 @@ pub fn main(args: &Args) {
         s => panic!("unknown storage {s}"),
     }
 }
+
+// ------------------------------------------------------------------------------------------------
+// several channels x several segments, sequential histories (ConnChannels.tla)
+//
+//   drv-event zccm --storage local|shm --runs N --steps K --out f
+// Every run draws a configuration (channels 1..6, segments 1..3, buffer 1..2, max borrow 1..2, overflow) and a
+// random history that prefers one "focus" channel (so that per-channel limits are reached while other channels
+// exist); a third of the runs end with the receiver dropped and `acquire_used_offsets`.
+
+const NS_MULTI: usize = 4; // chunks per segment
+
+fn run_multi<C: ZeroCopyConnection + 'static>(args: &Args, storage: &str) {
+    use iceoryx2_cal::shm_allocator::SegmentId;
+    let runs = args.num("runs", 50);
+    let steps = args.num("steps", 60);
+    let mut rng = vlib::rng::Rng::new(vlib::seed_from_env() ^ 0x5eed_c03);
+    let mut out = TraceWriter::create(&args.get_or("out", "/dev/stdout"));
+    let mut counts: std::collections::BTreeMap<String, u64> = Default::default();
+    let mut panics = 0u64;
+    for run in 0..runs {
+        let nch = *rng.pick(&[1usize, 2, 3, 6, 6]);
+        let nseg = *rng.pick(&[1usize, 2, 3, 3]);
+        let buf = 1 + rng.below(2) as usize;
+        let maxbor = 1 + rng.below(2) as usize;
+        let ovf = rng.chance(1, 2);
+        let n = NAME_COUNTER.fetch_add(1, Ordering::SeqCst);
+        let name = FileName::new(format!("verif_zccm_{}_{}", std::process::id(), n).as_bytes()).unwrap();
+        let mk = || {
+            C::Builder::new(&name)
+                .buffer_size(buf)
+                .receiver_max_borrowed_chunks_per_channel(maxbor)
+                .enable_safe_overflow(ovf)
+                .number_of_chunks_per_segment(NS_MULTI)
+                .max_supported_shared_memory_segments(nseg as u8)
+                .number_of_channels(nch)
+                .timeout(Duration::ZERO)
+        };
+        out.emit(&json!({"k":"reset","storage":storage,"buf":buf,"maxbor":maxbor,"ovf":ovf,"nch":nch,"nseg":nseg,"run":run}));
+        let sender = mk().create_sender().expect("sender");
+        let mut receiver = Some(mk().create_receiver().expect("receiver"));
+        let focus = rng.below(nch as u64) as usize;
+        // items the sender may use: (segment, index); in flight = handed out and not yet back
+        let mut inflight: Vec<(usize, usize)> = vec![];
+        let mut borrowed: Vec<Vec<(usize, usize)>> = vec![vec![]; nch];
+        let po = |it: (usize, usize)| PointerOffset::from_offset_and_segment_id(it.1 * SAMPLE, SegmentId::new(it.0 as u8));
+        let item = |o: PointerOffset| (o.segment_id().value() as usize, o.offset() / SAMPLE);
+        let mut emit = |out: &mut TraceWriter, a: &str, c: usize, it: (usize, usize), r: String, rit: (usize, usize), hasdata: bool, nb: usize, items: Vec<(usize, usize)>| {
+            *counts.entry(format!("{a}:{r}")).or_insert(0) += 1;
+            out.emit(&json!({"k":"op","a":a,"c":c,"seg":it.0,"v":it.1,"r":r,"rseg":rit.0,"rv":rit.1,
+                             "hasdata":hasdata,"borrowed":nb,"items":items.iter().map(|i| json!([i.0, i.1])).collect::<Vec<_>>()}));
+        };
+        let body = std::panic::catch_unwind(std::panic::AssertUnwindSafe(|| {
+            for _ in 0..steps {
+                let c = if rng.chance(3, 5) { focus } else { rng.below(nch as u64) as usize };
+                let ch = ChannelId::new(c);
+                let rcv = receiver.as_ref().unwrap();
+                match rng.below(10) {
+                    0..=3 => {
+                        let free: Vec<(usize, usize)> = (0..nseg).flat_map(|s| (0..NS_MULTI).map(move |i| (s, i))).filter(|it| !inflight.contains(it)).collect();
+                        if free.is_empty() {
+                            continue;
+                        }
+                        let it = *rng.pick(&free);
+                        // contract of the sender side (what every port does): everything that was returned is reclaimed
+                        // before the next sample is pushed - only then buffer + max borrow + 1 completion slots suffice
+                        loop {
+                            match sender.reclaim(ch) {
+                                Ok(None) => break,
+                                Ok(Some(o)) => {
+                                    let r = item(o);
+                                    inflight.retain(|x| *x != r);
+                                    emit(&mut out, "reclaim", c, (0, 0), "some".into(), r, false, 0, vec![]);
+                                }
+                                Err(e) => {
+                                    emit(&mut out, "reclaim", c, (0, 0), format!("{e:?}"), (0, 0), false, 0, vec![]);
+                                    break;
+                                }
+                            }
+                        }
+                        if inflight.contains(&it) {
+                            continue;
+                        }
+                        match sender.try_send(po(it), SAMPLE, ch) {
+                            Ok(None) => {
+                                inflight.push(it);
+                                emit(&mut out, "send", c, it, "ok".into(), (0, 0), false, 0, vec![]);
+                            }
+                            Ok(Some(o)) => {
+                                inflight.push(it);
+                                let ev = item(o);
+                                inflight.retain(|x| *x != ev);
+                                emit(&mut out, "send", c, it, "evicted".into(), ev, false, 0, vec![]);
+                            }
+                            Err(ZeroCopySendError::ReceiveBufferFull) => emit(&mut out, "send", c, it, "full".into(), (0, 0), false, 0, vec![]),
+                            Err(e) => emit(&mut out, "send", c, it, format!("{e:?}"), (0, 0), false, 0, vec![]),
+                        }
+                    }
+                    4..=6 => match rcv.receive(ch) {
+                        Ok(None) => emit(&mut out, "recv", c, (0, 0), "none".into(), (0, 0), false, 0, vec![]),
+                        Ok(Some(o)) => {
+                            borrowed[c].push(item(o));
+                            emit(&mut out, "recv", c, (0, 0), "some".into(), item(o), false, 0, vec![]);
+                        }
+                        Err(ZeroCopyReceiveError::ReceiveWouldExceedMaxBorrowValue) => {
+                            emit(&mut out, "recv", c, (0, 0), "maxborrow".into(), (0, 0), false, 0, vec![])
+                        }
+                    },
+                    7 => {
+                        // release: rarely, and preferably everything of a channel at once (the completion queue fills)
+                        let cands: Vec<usize> = (0..nch).filter(|k| !borrowed[*k].is_empty()).collect();
+                        if cands.is_empty() {
+                            continue;
+                        }
+                        let k = *rng.pick(&cands);
+                        let all = rng.chance(1, 2);
+                        while let Some(it) = borrowed[k].first().copied() {
+                            borrowed[k].remove(0);
+                            let r = match rcv.release(po(it), ChannelId::new(k)) {
+                                Ok(()) => "ok".to_string(),
+                                Err(e) => format!("{e:?}"),
+                            };
+                            emit(&mut out, "rel", k, it, r, (0, 0), false, 0, vec![]);
+                            if !all {
+                                break;
+                            }
+                        }
+                    }
+                    8 => match sender.reclaim(ch) {
+                        Ok(None) => emit(&mut out, "reclaim", c, (0, 0), "none".into(), (0, 0), false, 0, vec![]),
+                        Ok(Some(o)) => {
+                            let it = item(o);
+                            inflight.retain(|x| *x != it);
+                            emit(&mut out, "reclaim", c, (0, 0), "some".into(), it, false, 0, vec![]);
+                        }
+                        Err(e) => emit(&mut out, "reclaim", c, (0, 0), format!("{e:?}"), (0, 0), false, 0, vec![]),
+                    },
+                    _ => {
+                        let (h, b) = (rcv.has_data(ch), rcv.borrow_count(ch));
+                        emit(&mut out, "obs", c, (0, 0), "ok".into(), (0, 0), h, b, vec![]);
+                    }
+                }
+            }
+            if rng.chance(1, 3) {
+                receiver = None;
+                emit(&mut out, "drop_receiver", 0, (0, 0), "ok".into(), (0, 0), false, 0, vec![]);
+                let mut items: Vec<(usize, usize)> = vec![];
+                unsafe { sender.acquire_used_offsets(|o| items.push(item(o))) };
+                emit(&mut out, "acquire_used", 0, (0, 0), "ok".into(), (0, 0), false, 0, items);
+            }
+        }));
+        if body.is_err() {
+            panics += 1;
+            out.emit(&json!({"k":"op","a":"panic","c":0,"seg":0,"v":0,"r":"panic","rseg":0,"rv":0,"hasdata":false,"borrowed":0,"items":[]}));
+        }
+        out.emit(&json!({"k":"end"}));
+        drop(receiver);
+        drop(sender);
+        let _ = unsafe { <C as iceoryx2_cal::named_concept::NamedConceptMgmt>::remove_cfg(&name, &Default::default()) };
+    }
+    out.flush();
+    println!("{}", json!({"executions": runs, "panics": panics, "lines": out.lines, "storage": storage, "counts": counts}));
+}
+
+pub fn main_multi(args: &Args) {
+    match args.get_or("storage", "local").as_str() {
+        "local" => run_multi::<zero_copy_connection::process_local::Connection>(args, "local"),
+        "shm" => run_multi::<zero_copy_connection::posix_shared_memory::Connection>(args, "shm"),
+        s => panic!("unknown storage {s}"),
+    }
+}
